@@ -15,13 +15,14 @@ STORES = [[0, 1, 2, True], [3, 0, False, 5], [1, 1, 1, 1]]
 PY_FUEL = 60
 CFG_FUEL = 4000
 HEADER = ("From Coq Require Import ZArith List Bool.\n"
-          "From V.C03 Require Import PyAst PySem Cfg CfgSem Builder Encode Frag.\n"
+          "From V.C03 Require Import PyAst PySem Cfg CfgSem Builder Encode Frag Lift ForModel.\n"
           "Import ListNotations.\n")
 
 
 def make_programs(seed, salt, n, profile):
     r = vlib.rng(seed, f"C03/{salt}/{profile}")
-    g = pygen.Gen(r, profile)
+    g = pygen.Gen(r, "safe" if profile == "for" else profile)
+    g.forloops = profile == "for"
     flat, elif_ok = pygen.style(r)
     progs = []
     while len(progs) < n:
@@ -40,8 +41,21 @@ def run_impl(ctx, progs):
     return out
 
 
+def model_item(p):
+    rn = 'true' if p['returns_none'] else 'false'
+    if pyast.has_for(p['body']):
+        return (f"(let p := {pyast.fstmts_coq(p['body'])} in [Z.b2z (fsafe_stmts p); 0%Z; 0%Z] :: enc_build (fbuild p {rn}))")
+    return (f"(let p := {pyast.stmts_coq(p['body'])} in [Z.b2z (safe_stmts p); Z.b2z (frag_stmts p); Z.b2z (lsafe_stmts p)] "
+            f":: enc_build (build p {rn}))")
+
+
 def model_file(progs):
-    items = [f"(let p := {pyast.stmts_coq(p['body'])} in [Z.b2z (safe_stmts p); Z.b2z (frag_stmts p)] :: enc_build (build p {'true' if p['returns_none'] else 'false'}))" for p in progs]
+    items = [model_item(p) for p in progs]
+    return HEADER + "Definition cases : list (list (list Z)) := [\n" + ";\n".join(items) + "].\nEval vm_compute in cases.\n"
+
+
+def model_file_old(progs):
+    items = [f"(let p := {pyast.stmts_coq(p['body'])} in [Z.b2z (safe_stmts p); Z.b2z (frag_stmts p); Z.b2z (lsafe_stmts p)] :: enc_build (build p {'true' if p['returns_none'] else 'false'}))" for p in progs]
     return HEADER + "Definition cases : list (list (list Z)) := [\n" + ";\n".join(items) + "].\nEval vm_compute in cases.\n"
 
 
@@ -82,11 +96,14 @@ def sem_file(progs, impls, stores=None):
     """PySem on the source vs CfgSem on the implementation's CFG, for each store."""
     items = []
     for p, im in zip(progs, impls):
-        body = pyast.stmts_coq(p["body"])
+        isfor = pyast.has_for(p["body"])
+        body = pyast.fstmts_coq(p["body"]) if isfor else pyast.stmts_coq(p["body"])
+        orc = "(for_oracle test_oracle)" if isfor else "test_oracle"
+        ex = "fexec_py" if isfor else "exec_py"
         for st in (stores or STORES):
             s = "(store_of [" + "; ".join(pyast.val_coq(v) for v in st) + "], [])"
-            items.append(f"[enc_run {pygen.NV} (exec_py test_oracle {PY_FUEL} {body} {s}); "
-                         f"enc_run {pygen.NV} (run_cfg test_oracle {im['coq']} {CFG_FUEL} {s})]")
+            items.append(f"[enc_run {pygen.NV} ({ex} {orc} {PY_FUEL} {body} {s}); "
+                         f"enc_run {pygen.NV} (run_cfg {orc} {im['coq']} {CFG_FUEL} {s})]")
     return HEADER + "Definition cases : list (list (list Z)) := [\n" + ";\n".join(items) + "].\nEval vm_compute in cases.\n"
 
 
